@@ -57,6 +57,9 @@ def integrate(fr, axis='t', mode='mean', normalize=False, as_frame=False):
                                 seed=fr.rng,
                                 t_start=fr.t_start,
                                 source_name=fr.source_name)
+            # Carry the parent's time axis (it may have been replaced, e.g. by 
+            # Cadence.consolidate, with absolute times)
+            new_fr.ts = np.copy(fr.ts)
         else:
             # Spectrum
             new_fr = Spectrum(df=fr.df,
